@@ -24,8 +24,13 @@ Fold(cbs, i, c, dF, dG, e) ==
           ELSE IF cb.g /\ dG0 THEN <<c, dF, dG, "gradients_evaluated_twice_at_point">>
           ELSE Fold(cbs, i + 1, cb.pt, dF0 \/ cb.f, dG0 \/ cb.g, e)
 
-CheckReq(e, c, dF, dG) ==
-  LET r == Fold(e.cbs, 1, c, dF, dG, e) IN
+\* a request at another point makes that point the current one, whether or not it causes a callback
+CheckReq(e, c0, dF0, dG0) ==
+  LET moved == e.reqpt # 0 /\ e.reqpt # c0
+      c  == IF moved THEN e.reqpt ELSE c0
+      dF == IF moved THEN FALSE ELSE dF0
+      dG == IF moved THEN FALSE ELSE dG0
+      r == Fold(e.cbs, 1, c, dF, dG, e) IN
   IF e.outcome = "stopped" THEN (IF r[4] # "ok" THEN r ELSE <<r[1], r[2], r[3], "ok">>)   \* budget/failure/abort ended the run inside this request
   ELSE IF e.outcome # "ok" THEN <<c, dF, dG, "internal_exception">>
   ELSE IF r[4] # "ok" THEN r
